@@ -156,6 +156,48 @@ def wire_check():
         if bad:
             return dict(confirmed=True, input=dict(url=url), observed=dict(request_line=repr(line), violated=[bad]),
                         clause="the request line sent to a server parses to the same host, port, path and query the caller asked for"), tried
+    # uploads: only the scheme prefix is swapped, the rest of the caller's URL goes out as written
+    for url in ["gemini://example.com/up.gmi", "gemini://example.com/archive?gemini://other.example/page.gmi", "gemini://example.com/mirror/gemini://x.example/f.gmi"]:
+        tried += 1
+        seen = {}
+
+        async def go2():
+            loop = asyncio.get_running_loop()
+
+            async def create_connection(factory, host=None, port=None, **kw):
+                proto = factory()
+
+                class T:
+                    def write(self, d):
+                        seen["wire"] = seen.get("wire", b"") + bytes(d)
+                        if not seen.get("answered"):
+                            seen["answered"] = True
+                            loop.call_soon(proto.data_received, b"20 text/gemini\r\nok\n")
+                            loop.call_soon(proto.connection_lost, None)
+
+                    def close(self):
+                        pass
+
+                    def is_closing(self):
+                        return False
+
+                    def get_extra_info(self, n, default=None):
+                        return default
+                proto.connection_made(T())
+                return T(), proto
+            loop.create_connection = create_connection
+            client = GeminiClient(timeout=0.5, trust_on_first_use=False)
+            return await client.upload(url, b"abc", mime_type="text/plain")
+        try:
+            asyncio.run(go2())
+        except Exception as e:  # noqa: BLE001
+            return dict(confirmed=True, input=dict(upload_url=url), observed="upload to an accepted URL raised " + repr(e), clause="an accepted URL can be uploaded to"), tried
+        line = seen.get("wire", b"").split(b"\r\n", 1)[0]
+        want_prefix = ("titan://" + url[len("gemini://"):] + ";size=3").encode()
+        if not line.startswith(want_prefix):
+            return dict(confirmed=True, input=dict(upload_url=url), observed=dict(request_line=repr(line), expected_to_start_with=repr(want_prefix),
+                        violated=["the Titan request line does not carry the caller's URL as written (only the scheme prefix may change)"]),
+                        clause="the request line sent to a server parses to the same host, port, path and query the caller asked for"), tried
     return None, tried
 
 
